@@ -129,6 +129,8 @@ def run_block(case, res):
     req = drivers.open_request(cfg, w.take_request(), strict=False, check_mac=False)
     if case.get("sizes"):
         return run_sizes(case, res, cfg, op, w, req, it)
+    if case.get("plain"):
+        return run_plain(case, res, cfg, op, w, req, it)
     skels = skeleton_pdus(op, req.request_id)
     name, pdu = skels[case["skel"]]
     level = case["level"]
@@ -172,6 +174,77 @@ def run_block(case, res):
     res.distinct(n)
     if len(res["samples"]) < 1:
         res.sample({"cfg": cfg.name, "op": op, "skeleton": name, "level": level, "datagrams": n})
+    w.close()
+
+
+def plain_pdus(rid):
+    """Replies delivered as they are (no deviation enumeration): values whose contents stop short of / run past what a
+    special-casing decoder might expect, and Reports naming every prefix of the usmStats OIDs."""
+    out = []
+    n1 = BASE + (2, 1, 1)
+    import struct as _st
+
+    wrapped = ["9f7804" + _st.pack(">f", 1.5).hex(), "9f7908" + _st.pack(">d", 1.5).hex(), "9f760101", "9f7a0400000001", "9f7b08" + "00" * 7 + "05", "9f7c08" + "ff" * 8, "9f7d04" + "00" * 4]
+    contents = set()
+    for wv in wrapped:
+        b = bytes.fromhex(wv)
+        for k in range(0, len(b) + 1):
+            contents.add(b[:k])
+        contents.add(b + b"\x00")
+        contents.add(b + b"\x00" * 5)
+    for tag in (0x44, 0x04):
+        for c in sorted(contents):
+            out.append(("tag%02x-%s" % (tag, c.hex() or "empty"), rb.build_pdu(rb.PDU_RESPONSE, rid, 0, 0, [(n1, rb.tlv(tag, c))])))
+    # fixed-size and numeric types with every content length 0..10
+    for tag in (0x01, 0x02, 0x05, 0x06, 0x09, 0x40, 0x41, 0x42, 0x43, 0x46, 0x47, 0x80, 0x81, 0x82):
+        for k in range(0, 11):
+            for fill in (0x00, 0x7F, 0x80, 0xFF):
+                out.append(("tag%02x-len%d-%02x" % (tag, k, fill), rb.build_pdu(rb.PDU_RESPONSE, rid, 0, 0, [(n1, rb.tlv(tag, bytes([fill]) * k))])))
+    # Reports whose first varbind names every prefix of the usmStats OIDs (and one arc more)
+    for last in (1, 2, 3, 4, 5, 6):
+        full = (1, 3, 6, 1, 6, 3, 15, 1, 1, last, 0)
+        for k in range(2, len(full) + 1):
+            out.append(("report-oid-%d-%d" % (last, k), rb.build_pdu(rb.PDU_REPORT, rid, 0, 0, [(full[:k], b"\x41\x01\x05")])))
+        out.append(("report-oid-%d-long" % last, rb.build_pdu(rb.PDU_REPORT, rid, 0, 0, [(full + (7,), b"\x41\x01\x05")])))
+    out.append(("report-no-varbind", rb.build_pdu(rb.PDU_REPORT, rid, 0, 0, [])))
+    out.append(("report-null-value", rb.build_pdu(rb.PDU_REPORT, rid, 0, 0, [((1, 3, 6, 1, 6, 3, 15, 1, 1, 2, 0), rb.enc_null())])))
+    return out
+
+
+def run_plain(case, res, cfg, op, w, req, it):
+    mod, fast = drivers.subject()
+    n = 0
+    for name, pdu in plain_pdus(req.request_id):
+        is_report = name.startswith("report")
+        if is_report and cfg.version != "v3":
+            continue
+        if cfg.version != "v3":
+            dgs = [rb.build_community_msg(req.version, req.community, pdu)]
+        else:
+            scoped = rb.build_scoped(cfg.engine_id, b"", pdu)
+            dgs = [drivers.seal_reply(cfg, req.msg_id, cfg.engine_id, req.boots, req.time, scoped)]
+            if is_report:
+                dgs.append(drivers.seal_reply(cfg, req.msg_id, cfg.engine_id, req.boots, req.time, scoped, flags=0))
+        for dg in dgs:
+            w.inject(dg)
+            if op in ("getnext", "getbulk"):
+                it = fast.GetIter(rb.oid_str(BASE), 10) if op == "getbulk" else fast.GetIter(rb.oid_str(BASE))
+            out = w.recv(op, it)
+            n += 1
+            cls, ok = classify(out, op)
+            res.outcome(cls)
+            if not ok:
+                res.violation(
+                    "e2e/%s/%s/plain: %s %s" % (cfg.name if cfg.version == "v3" else cfg.version, op, cls, _cls(str(out.exc))),
+                    "pending %s on %s; reply '%s': %s -> %s: %s" % (op, cfg.name, name, dg.hex()[:300], out.exc_name, str(out.exc)[:200]),
+                    {"cfg": case["cfg"], "op": op, "datagram": dg, "replay_kind": "datagram", "req_ids": [req.request_id, req.msg_id]},
+                )
+            if not w.client_queue_empty():
+                w.flush_client_queue()
+    res.count("datagrams", n)
+    res.count("plain_datagrams", n)
+    res.count("blocks")
+    res.distinct(n)
     w.close()
 
 
@@ -389,6 +462,10 @@ def gen_cases(tier):
                         if level == "raw" and cfg.version == "v3" and sk % 4:
                             continue
                     yield {"cfg": cfg.describe(), "op": op, "skel": sk, "level": level, "full": thorough and (cfg.version == "v2c" or cfg.priv == 2)}
+    # odd-sized contents of every value type and Reports naming OID prefixes, delivered as they are
+    for cfg in cfgs:
+        for op in ["get", "get_many", "getnext", "getbulk"] + (["refresh"] if cfg.version == "v3" else []):
+            yield {"cfg": cfg.describe(), "op": op, "plain": True}
     # replies of every size up to the receive limit
     for cfg in cfgs:
         for op in ("get", "getbulk"):
@@ -454,7 +531,7 @@ def run(tier):
         "single substitutions (256), single insertions/deletions (30) and pairs of substitutions (%s) of ~200 skeleton messages; header tampering of every TLV node (17 length forms, 30 tags, "
         "long-form tags); every relative-OID varbind name of 0..3 octets over 14 symbols after 7 short absolute names; decrypt path: salt length 0..16 x ciphertext length {0..64, C-16..C} x 3 patterns and every truncation / substitution of an encrypted scoped PDU. "
         "PYX end to end: v1, v2c, 7 v3 security configurations x pending {get, get_many, getnext, getbulk, refresh} x skeleton replies (18 value kinds, relative OIDs, error status, Report, "
-        "foreign PDU; one-varbind replies of every datagram size up to the 4080-octet limit, sealed / wrong MAC / damaged) x all truncations, single substitutions (%s) and header tamperings, applied before sealing (MAC valid) and to the raw datagram. Every input is distinct." % (
+        "foreign PDU; every value type with contents of 0..10 octets, Opaque / OCTET STRING contents that are prefixes of Net-SNMP wrapped types, Reports naming every prefix of the usmStats OIDs (delivered as they are); one-varbind replies of every datagram size up to the 4080-octet limit, sealed / wrong MAC / damaged) x all truncations, single substitutions (%s) and header tamperings, applied before sealing (MAC valid) and to the raw datagram. Every input is distinct." % (
             "4 (7 major entry points) / 3" if thorough else "3", 6 if thorough else 5, 10 if thorough else 8, "30x30" if thorough else "8x8", "256 symbols on v2c and AES, 30 elsewhere" if thorough else "30 symbols")
     )
     rec.assume(
